@@ -621,8 +621,7 @@ func c10(c *core.Ctx, r *core.Report) {
 	// goroutine collector: DIAGNOSTIC
 	c10Collector(c, r)
 	// R5
-	sites := c.CallSites(func(com *ssa.CallCommon) bool { return core.IsCallTo(com, ro.Sorter) })
-	r.Exactly("C10.R5", "sorter call sites", len(sites), 3)
+	sorterSiteRules(c, r, "C10.R5")
 }
 
 // goInLoop: the go statement inside the loop driven by a map Range instruction.
